@@ -701,13 +701,19 @@ class FATLongDirectoryEntry(object):
     def is_lfn_entry_complete(self):
         """Verify that LFN object forms a complete chain.
 
-        :returns: `True` if `LAST_LONG_ENTRY` is found
+        :returns: `True` if the entries numbered 1..n are all present
+                  and entry n carries the `LAST_LONG_ENTRY` flag
         """
-        for k in self.lfn_entries.keys():
-            if (int(k) & self.LAST_LONG_ENTRY) == self.LAST_LONG_ENTRY:
-                return True
+        ordinals = sorted(int(k) for k in self.lfn_entries.keys())
+        if len(ordinals) == 0:
+            return False
 
-        return False
+        last = ordinals[-1]
+        if (last & self.LAST_LONG_ENTRY) != self.LAST_LONG_ENTRY:
+            return False
+
+        count = last & ~self.LAST_LONG_ENTRY
+        return count >= 1 and ordinals[:-1] == list(range(1, count))
 
 
 def make_lfn_entry(dir_name: str,
